@@ -110,7 +110,8 @@ def check_case(line, hout, dout, stats):
     if same != "in-same":
         probs.append(("prop", "input-modified", "the belief passed in was modified"))
     if list(cw) != list(outw):
-        probs.append(("corr", "weights-written", "weights of the output mixture changed (model: not written)"))
+        # not part of C02 (the property does not speak about the weights): recorded, never an alarm
+        stats["note_weights_written"] = stats.get("note_weights_written", 0) + 1
     nF = vlib.fnorm(F) * n
     for c in range(k):
         # specification side, computed here independently of the Lean model
